@@ -284,7 +284,7 @@ theorem addAttributes_attrKids (stack : NsStack) (node : Path) (decls : List (Na
         · cases hr
         · refine ih _ st' ?_ ?_ hr
           · obtain ⟨attrs, he, ha, hnames⟩ := h
-            refine ⟨.node (.attribute nameId ab.value) [] :: attrs, by simp [he], fun k hk => ?_, ?_⟩
+            refine ⟨.node (.attribute nameId (xmlIdValue nameId ab.value)) [] :: attrs, by simp [he], fun k hk => ?_, ?_⟩
             · simp only [List.mem_cons] at hk
               rcases hk with rfl | hk
               · exact ⟨_, _, rfl⟩
